@@ -54,7 +54,8 @@ def case_single(kind, fam, uniform=False):
             # the differential volume is an argument: the region's own in the serial pass, an arbitrary weight in the threaded one
             dVs = {False: reg.dV, True: reg.dV * rng.uniform(0.5, 2, reg.dV.shape)}
             for parallel in (False, True):
-                for bc in ((nq, nc), (1, 1)):
+                # full, constant, cell-wise constant and quadrature-point-wise constant integrands (size-one trailing axes)
+                for bc in ((nq, nc), (1, 1), (1, nc), (nq, 1)):
                     if kind == "scalar":
                         dm = reg.mesh.dim
                         fem.IntegralForm([rnd(rng, *bc)], v=field, dV=dVs[parallel], grad_v=[False]).assemble(parallel=parallel)
@@ -73,6 +74,20 @@ def case_single(kind, fam, uniform=False):
                     # the two-step path the solid bodies use: integrate(), then assemble(values=...)
                     form2 = fem.IntegralForm([rnd(rng, D, D, D, D, *bc)], v=field, dV=dVs[parallel], u=field)
                     form2.assemble(values=form2.integrate(parallel=parallel))
+                    if bc == (nq, nc):
+                        # ... with the previous result handed back as output buffer and a new integrand (every Newton iteration)
+                        # (a new form object per integrand, as the solid bodies do: the axisymmetric form prepares its
+                        # sub-integrands at construction, so an integrand changed afterwards is not its integrand)
+                        prev = form2.integrate(parallel=parallel)
+                        form3 = fem.IntegralForm([rnd(rng, D, D, D, D, *bc)], v=field, dV=dVs[parallel], u=field)
+                        fresh = [np.array(v, copy=True) for v in form3.integrate(parallel=parallel)]
+                        vals = form3.integrate(parallel=parallel, out=prev)
+                        err = max(maxabs(np.asarray(a) - b) / max(maxabs(b), 1e-300) for a, b in zip(vals, fresh))
+                        run.compare("integralform.out", "form kind=%s parallel=%s clause=integrate-out-buffer" % (kind, parallel), err, 1e-14,
+                                    "integrate(out=previous result) differs from integrate() without a buffer", unit="integrate:out-buffer",
+                                    config=(kind, fam, "out", parallel))
+                        form3.assemble(values=vals)
+                        run.units["integrate(out=previous)"] += 1
                     # bilinear forms, all grad combinations the field kind supports
                     fem.IntegralForm([rnd(rng, D, D, D, D, *bc)], v=field, dV=dVs[parallel], u=field).assemble(parallel=parallel)
                     if kind != "axisymmetric":
@@ -273,7 +288,7 @@ def cases(tier, seed):
                        ("axisymmetric", ("quad", "quad8", "triangle"))):
         for fam in fams:
             out.append(("single:%s:%s" % (kind, fam), case_single(kind, fam)))
-    for kind, fam in (("cartesian", "quad"), ("cartesian", "hexahedron"), ("planestrain", "quad")):
+    for kind, fam in (("cartesian", "quad"), ("cartesian", "hexahedron"), ("planestrain", "quad"), ("scalar", "quad"), ("axisymmetric", "quad")):
         out.append(("single:%s:%s:uniform" % (kind, fam), case_single(kind, fam, uniform=True)))
     for kind, fam, n in (("cartesian", "hexahedron", 3), ("cartesian", "hexahedron", 2), ("cartesian", "quad9", 2),
                          ("cartesian", "tetra10", 3), ("planestrain", "quad", 3), ("planestrain", "triangle6", 2),
